@@ -63,3 +63,49 @@ Section WholeLog.
     | None => live
     end.
 End WholeLog.
+
+Section Registry.
+  (* idWatchers : map[TransactionID]map[uuid]chan of the store: which watchers the event loop sends an
+     event of transaction t to.  register = the locked block at the top of Watch, unregister = its deferred
+     clean-up (remove the watcher; drop the inner map only when it became empty). *)
+  Context {I W : Type} (id_eqb : I -> I -> bool) (w_eqb : W -> W -> bool).
+
+  Definition registry := list (I * list W).
+
+  Fixpoint reg_get (r : registry) (t : I) : option (list W) :=
+    match r with
+    | [] => None
+    | (k, ws) :: r' => if id_eqb k t then Some ws else reg_get r' t
+    end.
+
+  Fixpoint reg_set (r : registry) (t : I) (ws : list W) : registry :=
+    match r with
+    | [] => [(t, ws)]
+    | (k, v) :: r' => if id_eqb k t then (k, ws) :: r' else (k, v) :: reg_set r' t ws
+    end.
+
+  Fixpoint reg_del (r : registry) (t : I) : registry :=
+    match r with
+    | [] => []
+    | (k, v) :: r' => if id_eqb k t then reg_del r' t else (k, v) :: reg_del r' t
+    end.
+
+  Definition watchers_of (r : registry) (t : I) : list W :=
+    match reg_get r t with Some ws => ws | None => [] end.
+
+  Definition register (r : registry) (t : I) (w : W) : registry :=
+    reg_set r t (w :: watchers_of r t).
+
+  Definition remove_watcher (w : W) (ws : list W) : list W :=
+    filter (fun x => negb (w_eqb x w)) ws.
+
+  Definition unregister (r : registry) (t : I) (w : W) : registry :=
+    match reg_get r t with
+    | None => r
+    | Some ws =>
+      match remove_watcher w ws with
+      | [] => reg_del r t
+      | ws' => reg_set r t ws'
+      end
+    end.
+End Registry.
